@@ -26,7 +26,7 @@
     xml_qname_of_expat_name_partial xml_plain_name xml_brace_uri_loses_its_brace
     html_event_kinds
     entity_table_resolves xml_html_entities_resolve merged_forest_is_normal
-    open_tags_is_nesting_stack
+    open_tags_is_nesting_stack delivered_is_prefix_of_unbatched
 -/
 import Genshi.Lemmas.ParseHtml
 import Genshi.Lemmas.ParseXml
@@ -95,6 +95,15 @@ theorem html_delivered_balanced (env : Env) (reads : List HtmlRead) (close : Lis
     rw [coalesce, balance_coalesceGo]; exact hb
   rw [← ht] at this
   exact balance_prefix [] _ t st this
+
+/-- Iterating lazily: whatever the batches, what the consumer has received when an exception arrives is
+    a beginning of the stream the same callbacks give without any batching (`eager`, coalesced) — events
+    are only ever withheld by a failure, never altered, and the exception is that run's exception. -/
+theorem delivered_is_prefix_of_unbatched (env : Env) (reads : List HtmlRead) (close : List (Item HtmlCb)) :
+    (htmlParse env reads close).1 <+: coalesce (eager (htmlLayer env) [] (htmlItems reads close)).1 ∧
+    (htmlParse env reads close).2 = (eager (htmlLayer env) [] (htmlItems reads close)).2.map htmlHandler := by
+  obtain ⟨h1, h2, _⟩ := parse_vs_eager (htmlLayer env) htmlHandler [] (reads.map HtmlReadG.toRead) close
+  exact ⟨h2, h1⟩
 
 /-- **html_batching_irrelevant.** The outcome depends only on the concatenation of the batches
     (where `read()` cuts the input, which batch `close()` flushes): same exception or none, and
